@@ -197,12 +197,12 @@ Definition rel_value (dims : list variable) (table : list (tuple * Z)) (a : list
   of_opt ENotModelled (lookup tuple_eqb t table).
 
 (* values[val].append(ass_str) on a defaultdict(list) *)
-Fixpoint dict_append (k : Z) (s : string) (d : list (Z * list string)) : list (Z * list string) :=
+Fixpoint dict_append {A} (k : Z) (s : A) (d : list (Z * list A)) : list (Z * list A) :=
   match d with
   | [] => [(k, [s])]
   | (k', l) :: r => if Z.eqb k k' then (k', l ++ [s]) :: r else (k', l) :: dict_append k s r
   end.
-Definition group (pairs : list (Z * string)) : list (Z * list string) :=
+Definition group {A} (pairs : list (Z * A)) : list (Z * list A) :=
   fold_left (fun d p => dict_append (fst p) (snd p) d) pairs [].
 
 Definition sp : string := " "%string.
@@ -589,9 +589,18 @@ Inductive case :=
 | CRound (d : dcop) (dumped : result ytree) (files : list (list section)) (obs : result loaded)
 | CLoad (t : ytree) (obs : result loaded).
 
+(* [Err ENotModelled] is decided by the input alone (a '..' range, a wrong number of tokens,
+   an extensional constraint over no variable or over an empty domain, ...): such inputs are
+   outside the model and are not compared. *)
+Definition load_agrees (m obs : result loaded) : bool :=
+  match m with
+  | Err ENotModelled => true
+  | _ => result_eqb loaded_eqb m obs
+  end.
+
 Definition check_case (c : case) : bool :=
   match c with
   | CRound d dumped files obs =>
-      result_eqb ytree_eqb (to_tree d) dumped && result_eqb loaded_eqb (load_files files) obs
-  | CLoad t obs => result_eqb loaded_eqb (of_tree t) obs
+      result_eqb ytree_eqb (to_tree d) dumped && load_agrees (load_files files) obs
+  | CLoad t obs => load_agrees (of_tree t) obs
   end.
